@@ -27,7 +27,7 @@ EXPLANATION = (
     "; X1-sem - format_infix interpreted on a corpus of operand spellings (names ending in e / E, numbers) x every operator symbol: each operator becomes a token of its own; W3 includes disabled engine variables"
 )
 ASSUMPTIONS = ["numpy ufuncs named in the map compute the mathematical function of that name elementwise"]
-FLOORS = {"X8": 2, "PD": 4, "PD2": 4, "T1": 14, "T12": 34, "V6": 34 + 13, "V7": 6, "W2": 1, "W3": 5}
+FLOORS = {"W5": 3, "X8": 2, "PD": 4, "PD2": 4, "T1": 14, "T12": 34, "V6": 34 + 13, "V7": 6, "W2": 1, "W3": 5}
 
 # Appendix A.1: strictly decreasing binding strength
 LADDER = [["!", "~"], ["^", "**", ".-", ".+"], ["*", "/", "%"], ["+", "-"], ["and"], ["or"]]
@@ -81,7 +81,107 @@ def run(check: Check) -> None:
     from .pyroundtrip_sem import constructor_fidelity
 
     constructor_fidelity(check, bases=("Term",), only=("Function",))  # a function's own variables are its own: arguments stored as given, no container shared between terms
+    configure_reloads(check)
     check.exhaustive_parts += ["operator table vs specification ladder", "pop rule over all orderings", "arity x depth enumeration"]
+
+
+FV = None  # set below: the symbol standing for what Function.evaluate returns
+
+
+def _init_fv() -> None:
+    global FV, Sym, App, SymModule
+    from ..absexec import App as App_, Sym as Sym_, SymModule as SymModule_
+
+    Sym, App, SymModule = Sym_, App_, SymModule_
+    FV = Sym_("v")
+
+
+_init_fv()
+
+
+def is_formula_value(v: Any) -> bool | None:
+    """True: `v` is the formula's value (possibly times 1, plus 0, coerced); False: something else was computed from it; None: cannot tell."""
+    from ..absexec import Opaque
+
+    if v == FV:
+        return True
+    if isinstance(v, Opaque):
+        return None
+    if isinstance(v, App):
+        if v.fn == "binop:Mult" and len(v.args) == 2 and any(isinstance(a, (int, float)) and not isinstance(a, bool) and a == 1 for a in v.args):
+            return is_formula_value(next(a for a in v.args if not (isinstance(a, (int, float)) and a == 1)))
+        if v.fn in ("binop:Add", "binop:Sub") and len(v.args) == 2 and isinstance(v.args[1], (int, float)) and v.args[1] == 0:
+            return is_formula_value(v.args[0])
+        if v.fn in ("np.asarray", "np.array", "np.atleast_1d", "np.squeeze", "np.asanyarray", ".squeeze", ".astype", "np.float64") and v.args:
+            return is_formula_value(v.args[0])
+        return False
+    return False
+
+
+def show_value(v: Any) -> str:
+    if isinstance(v, App):
+        if v.fn.startswith("binop:") and len(v.args) == 2:
+            return f"({show_value(v.args[0])} {v.fn[6:]} {show_value(v.args[1])})"
+        return f"{v.fn}({', '.join(show_value(a) for a in v.args)})"
+    if isinstance(v, Sym):
+        return v.name
+    return repr(v)
+
+
+def configure_reloads(check: Check, rule: str = "W5") -> None:
+    """W5: the ways a formula gets into a Function term - the constructor with `load=True`, `create`, `configure` - leave the term evaluating *that*
+    formula. Interpreted (sa/objexec.py) on terms that are not loaded yet and on terms that already hold the tree of another formula; `Function.load`
+    itself (the parser: rules PD / PD2) is replaced by a marker that records which formula the tree was built from."""
+    from ..absexec import Internal, MObj, Raised, Unknown
+    from .roundtrip_sem import E0, new_exec
+
+    p = check.program
+    fc = p.cls("Function")
+    cfg_fn, create_fn = fc.lookup("configure"), fc.lookup("create")
+    if cfg_fn is None:
+        raise AnalysisError("anchor vanished: Function.configure")
+    check.analysed(cfg_fn)
+    bad: dict[str, str] = {}
+    n = 0
+    try:
+        ex = new_exec(p)
+
+        def load(ex_, e, args, kw):  # type: ignore[no-untyped-def]
+            me = args[0]
+            me.fields["root"] = MObj("<tree>", {"of": me.fields.get("formula")})
+
+        ex.func_hooks["Function.load"] = load
+
+        def tree_of(f: MObj) -> object:
+            r = f.fields.get("root")
+            return r.fields.get("of") if isinstance(r, MObj) else None
+
+        for was_loaded in (False, True):
+            n += 1
+            f = ex.instantiate(fc, [], {"name": "f", "formula": "a + 1", "load": was_loaded}, E0)
+            if was_loaded and tree_of(f) != "a + 1":
+                bad.setdefault("constructor", f"Function('f', 'a + 1', load=True) holds the tree of {tree_of(f)!r}")
+            ex.invoke(cfg_fn, [f, "b * 2"], {}, E0)
+            if f.fields.get("formula") != "b * 2" or tree_of(f) != "b * 2":
+                bad.setdefault("configure", f"configure('b * 2') on a function that was {'already loaded with' if was_loaded else 'not yet loaded from'} 'a + 1': the formula is "
+                                            f"{f.fields.get('formula')!r} but the tree it evaluates is that of {tree_of(f)!r}")
+        if create_fn is not None:
+            check.analysed(create_fn)
+            n += 1
+            from ..objexec import ClassV
+
+            g = ex.invoke(create_fn, [ClassV(fc.qualname)] if create_fn.node.args.args and create_fn.node.args.args[0].arg == "cls" else [], {"name": "g", "formula": "c - 1"}, E0)
+            if not isinstance(g, MObj) or g.fields.get("formula") != "c - 1" or tree_of(g) != "c - 1":
+                bad.setdefault("create", f"Function.create('g', 'c - 1') gives a term with formula {g.fields.get('formula') if isinstance(g, MObj) else g!r} and the tree of "
+                                         f"{tree_of(g) if isinstance(g, MObj) else None!r}")
+    except (Unknown, Internal, Raised) as err:
+        check.notes.append(f"{rule}: Function.configure / create are outside the interpreter's model ({getattr(err, 'why', err)}): undecided")
+        check.ok(rule, "Function.configure/undecided", "outside the interpreter's model; decided by the round-trip rules of C14 only", loc(cfg_fn))
+        return
+    for aspect, good in (("configure", "configure(formula) leaves the term evaluating that formula, whether or not it held a tree before"),
+                         ("create", "create(name, formula) gives a loaded term of that formula"), ("constructor", "Function(..., load=True) is loaded with its formula")):
+        check.require(aspect not in bad, rule, f"Function.{aspect if aspect != 'constructor' else '__init__'}/loads-its-formula", good if aspect not in bad else bad[aspect],
+                      loc(cfg_fn), {}, exhaustive=True, cases=n)
 
 
 def ladder_rules(check: Check, table: list[Element], by_name: dict[str, Element], file: str) -> None:
@@ -289,12 +389,14 @@ def w3_variables(check: Check) -> None:
                     env_ = args[0] if args else kw.get("variables")
                     seen["env"] = dict(env_) if isinstance(env_, dict) else env_
                     seen["calls"] = seen.get("calls", 0) + 1
-                    return "formula-value"
+                    return FV
 
                 selfobj = MObj("Function", {"variables": dict(own), "engine": engine, "root": Opaque("root"), "name": Opaque("name"), "formula": Opaque("formula")})
                 hooks = {"method:evaluate": evaluate, "method:variable": lambda ex_, e, recv, args, kw: Opaque("variable")}
                 ex = AbsExec(fn.qualname, hooks, helpers={k: v for k, v in fn.cls.methods.items() if k.startswith("_") and not k.startswith("__")})
-                env = {"self": selfobj, xname: "the-argument"}
+                ex.globals = {**getattr(ex, "globals", {}), "np": SymModule("np", (("nan", float("nan")), ("inf", float("inf")))), "nan": float("nan"), "inf": float("inf"),
+                              "scalar": lambda ex_, e, args, kw: args[0], "array": lambda ex_, e, args, kw: args[0]}
+                env = {"self": selfobj, xname: Sym("x")}
                 try:
                     ex.block(list(node.body), env)
                     got: Any = ("return", None)
@@ -314,14 +416,18 @@ def w3_variables(check: Check) -> None:
                         bad.setdefault(kind, f"{what}: must be rejected with ValueError before the formula is evaluated, " +
                                        (f"but {'the formula is evaluated and ' if seen.get('calls') else ''}{'raises ' + got[1] if got[0] == 'raise' else 'a value is returned'}"))
                 else:
-                    want_env = {**({n_: f"value-of-{n_}" for n_ in eng_names} if eng_names else {}), "x": "the-argument", **own}
+                    want_env = {**({n_: f"value-of-{n_}" for n_ in eng_names} if eng_names else {}), "x": Sym("x"), **own}
                     if got[0] != "return" or seen.get("calls") != 1:
                         bad.setdefault("result", f"{what}: the formula must be evaluated once and its value returned ({got})")
                     else:
                         if seen.get("env") != want_env:
                             bad.setdefault("environment", f"{what}: the formula sees {seen.get('env')}, specified {want_env}")
-                        if got[1] != "formula-value":
-                            bad.setdefault("result", f"{what}: returns {got[1]!r}, not the value of the formula")
+                        verdict_ = is_formula_value(got[1])
+                        if verdict_ is None:
+                            check.notes.append(f"W3: what membership() makes of the formula's value is outside the interpreter's model ({got[1]!r:.80}): the result clause is undecided")
+                        elif not verdict_:
+                            bad.setdefault("result", f"{what}: returns `{show_value(got[1])}`, which is not the value of the formula (v): the membership of a Function term is its formula "
+                                                     "evaluated on the variables, whatever x is")
     except Unknown as u:
         raise AnalysisError(str(u)) from None
     for construct, kinds, text in (
